@@ -177,6 +177,17 @@ func (c *Ctx) Rng(label string) *Rng { return NewRng(c.Seed, c.ID+"/"+label) }
 // Eval counts one evaluation (execution of the oracle).
 func (c *Ctx) Eval() { c.mu.Lock(); c.evals++; c.mu.Unlock() }
 
+// Progress is a monotone measure of work done (evaluations plus all counters), read by the wall-clock watchdog.
+func (c *Ctx) Progress() int64 {
+	c.mu.Lock()
+	defer c.mu.Unlock()
+	n := c.evals + int64(len(c.viol))
+	for _, v := range c.counters {
+		n += v
+	}
+	return n
+}
+
 // EvalN counts n evaluations.
 func (c *Ctx) EvalN(n int) { c.mu.Lock(); c.evals += int64(n); c.mu.Unlock() }
 
